@@ -12,38 +12,38 @@ sys.path.insert(0, HERE)
 import check  # noqa: E402
 
 META = {
-    'C01': ('bigWig round trip: section encoder == published layout (bw_enc), section decoder == exact filter/clip of the stored items in both byte orders (bw_dec), decode(encode(items)) == items lemma, batching keeps every accepted value once and in order under one chromosome id (bw_batch). Proved for all inputs by Verus on the real function text.',
-            'NOT decided: the tokio task pipeline / channel order (R2 hand-off shim is assumed order-preserving), section offsets and chromosome table, zlib (inflate∘deflate = id assumed), options other than compress/items_per_slot/block_size. The property is therefore established per function, not for the composed writer.'),
-    'C02': ('bigBed round trip: validation-then-batching keeps every accepted entry once, in order, unchanged, start-sorted batches (bb_batch); item count incremented exactly once per entry; block encoder == published layout and decoder == order-preserving filter (bb_enc/bb_dec when enabled).',
-            'NOT decided: task pipeline/channels (R2 shim), autoSql storage, chromosome table, zlib; `rest` treated as bytes (UTF-8-ness dropped).'),
-    'C03': ('bigWig range query per block: result == stored items with end > s && start < e, clipped, in stored order, nothing else, for section types 1-3 and both byte orders (bw_dec).',
-            'NOT decided: which blocks are visited (C05 units), cache coherence / reopen / query history (reader state machines are outside the extracted functions), per-base `values()` array.'),
-    'C04': ('bigBed range query: block span covers every entry of the block (bb_enc), decoder returns the order-preserving filter end >= s && start <= e (bb_dec), `overlaps` == closed-span intersection in (chrom, base) order and the no-miss lemmas (rt_nodes), node filter order-preserving.',
-            'NOT decided: R-tree node spans cover their children (get_rtreeindex is iterator-adaptor code; bounded stand-in only when rt_build is enabled), pipeline, caches.'),
-    'C05': ('R-tree: `compare_position`/`overlaps` against the lexicographic spec, `nodes_overlapping` == order-preserving filter of leaf/non-leaf items (rt_nodes); work-list search == pre-order DFS of the pointer graph with error propagation and termination (rt_search when enabled); on-disk layout: child pointers == real positions for every well-formed tree (rt_layout when enabled); item decoders (Kani, rt_items).',
-            'NOT decided unboundedly: that get_rtreeindex builds a well-formed tree with covering spans (itertools chunks/closures are outside Verus; only a bounded Kani stand-in), so "search == linear scan" is proved relative to that assumption.'),
-    'C06': ('whole-file summary: bigWig per-value update is exact on integers (items, bases) and shape-pinned on floats (bw_batch); bigBed sweep accounting (bb_sweep when enabled).',
-            'NOT decided: float rounding (floats are uninterpreted: shape only), accumulation across chromosomes in the `advance` closures, header placement (hdr unit when enabled), IndexList behaves as a sequence (assumed).'),
-    'C07': ('bigWig zoom: per-level tiling invariant with exact bases_covered == data bases in the record span, disjoint ordered records of length <= resolution, every data base in exactly one record, batches 1..=items_per_slot, nothing pending at chromosome end, termination (bw_zoom); zoom block bytes == published 32-byte record layout and block span covers its records (zoom_enc); zoom block decoder (zoom_dec when enabled).',
-            'NOT decided: levels listed with strictly increasing resolution (write_zooms glue), f64->f32 narrowing error, the per-level independence of the outer loop (dropped by the R9 outline), value.end + size <= u32::MAX is an unchecked precondition.'),
-    'C08': ('bigBed zoom: tiling layer over the flushed depth segments with exact covered-base counts (bb_zoom when enabled), shared zoom encoder/decoder units.',
-            'NOT decided: as C07; sweep depth exactness only as far as bb_sweep/bb_zoom NOTES state.'),
-    'C09': ('well-formed file: every writer unit has `bytes == format spec` postconditions written from the published layout, sharing no code with the readers: zoom blocks (zoom_enc), data blocks (bw_enc/bb_enc), header/zoom directory/summary/data count placement with a frame condition (hdr), R-tree layout (rt_layout) when enabled.',
-            'NOT decided: chromosome B+ tree bytes, zlib stream validity (libdeflater assumed), mutual consistency of offsets across write_mid/write_zooms glue (data flow through unextracted generic code).'),
-    'C10': ('readers decode any spec-conforming bytes: block decoders are proved against arithmetic decode specs with a symbolic byte order (bw_dec types 1-3, bb_dec, zoom_dec), header/zoom directory decode (info), R-tree item decoders for both byte orders (rt_items, Kani complete), node filter and search (rt_nodes, rt_search).',
-            'NOT decided: multi-level chromosome trees (read_chrom_tree_block), cir_tree_non_leaf_items over-read (suspected defect D8, recorded), caching readers, libdeflater inflate.'),
+    'C01': ('bigWig round trip, per function and per hand-over: section encoder == published layout and decoder == exact filter/clip of the stored items in both byte orders, decode(encode(items)) == items (bw_enc, bw_dec); batching keeps every accepted value once, in order, under one chromosome id (bw_batch, procs, create); the serial source feeds the processors each value once with the right `next` (feed); section offsets are rebased to file positions in every mode (sec_offsets); chromosome table bytes == the list handed over, in order, with the supplied sizes (chrom_tree); header/offset data flow through the four writer bodies (mutual, hdr, write_pre, zoom_levels); R-tree layout and search (rt_layout, rt_nodes, rt_search, rt_readnode, info, cache). All unbounded, by Verus, on function text cut from /repo every run.',
+            'NOT decided: the tokio task pipeline / channel order (hand-off shims are assumed order-preserving; multi-threaded scheduling is C11, not claimed), zlib (inflate(deflate(x)) == x assumed), `get_rtreeindex` builds covering spans (bounded Kani stand-in rt_build only), chromosome-id assignment inside `write_vals` (generic iterator code). The property is established per function and per hand-over, not as one theorem about the composed writer.'),
+    'C02': ('bigBed round trip: validation-then-batching keeps every accepted entry once, in order, unchanged, in start-sorted batches and refuses exactly the unrepresentable ones (bb_batch, procs, create); block encoder == published layout, decoder == order-preserving filter, round-trip lemma (bb_enc, bb_dec); feeding, offsets, chromosome table, headers, autoSql text stored verbatim with the field count derived from it (feed, sec_offsets, chrom_tree, hdr, write_pre, mutual); index layout and search as C01.',
+            'NOT decided: task pipeline/channels, zlib, `rest` treated as bytes (UTF-8-ness dropped), get_rtreeindex (bounded only).'),
+    'C03': ('bigWig range query: per block the result == stored items with end > s && start < e (and s < e), clipped, in stored order, for section types 1-3 and both byte orders (bw_dec); the iterator state machine drains every block the index search returned, in order, once (iters); name -> id -> tree -> iterator glue (query_glue); the per-base `values()` array agrees with the interval answers, NaN elsewhere (bw_values); caching reader == plain reader for every history of queries and after reopen (cache); header/zoom directory decode (info); index search == linear scan given covering spans (rt_nodes, rt_search, rt_readnode); R-tree locating/caching of offsets (tree_offsets when enabled).',
+            'NOT decided: get_rtreeindex spans (bounded), zlib, chromosome B+ tree lookups beyond a single leaf block.'),
+    'C04': ('bigBed range query: block span covers every entry of the block (bb_enc), decoder returns the order-preserving filter (bb_dec), `overlaps` == closed-span intersection in (chrom, base) order with the no-miss lemmas (rt_nodes, cmp_k/Kani), iterator/glue/cache as C03 (iters, query_glue, cache), index layout (rt_layout).',
+            'NOT decided unboundedly: R-tree node spans cover their children (get_rtreeindex is iterator-adaptor code; bounded Kani stand-in rt_build only).'),
+    'C05': ('R-tree: `compare_position`/`overlaps` against the lexicographic spec (rt_nodes; cmp_k by Kani contract over full-width inputs), `nodes_overlapping` == order-preserving filter; work-list search == pre-order DFS of the pointer graph == linear scan given covering spans, with error propagation and termination (rt_search); node decoding, 24/32-byte items (rt_readnode; rt_items by Kani, complete); on-disk layout: child pointers == real positions for every well-formed tree (rt_layout); caching reader returns the same nodes (cache).',
+            'NOT decided unboundedly: that get_rtreeindex builds a well-formed tree with covering spans (itertools chunks/closures are outside Verus; bounded Kani stand-in rt_build, labelled bounded), so "search == linear scan" is proved relative to that assumption.'),
+    'C06': ('whole-file summary: per-value update exact on integers (items, bases) and shape-pinned on floats (bw_batch); bigBed sweep accounting with exact depth segments (bb_sweep); cross-chromosome fold incl. "a chromosome without covered bases contributes no min/max" (sum_acc); initial processor state (create); the summary and count are stored at the offsets the header names (hdr, zoom_levels); life-cycle (procs).',
+            'NOT decided: float rounding (floats are uninterpreted with totality/determinism axioms: shape only), IndexList behaves as a sequence (assumed shim contract).'),
+    'C07': ('bigWig zoom: per-level tiling invariant with exact bases_covered == data bases in the record span, disjoint ordered records of length <= resolution, every data base in exactly one record, batches 1..=items_per_slot, nothing pending at chromosome end, termination (bw_zoom); zoom sizes positive, sorted, deduplicated, <= 10 levels (zoom_sizes, zoom_levels); zoom block bytes == published 32-byte layout, span covers records (zoom_enc), decoder and iterator (zoom_dec, iters, query_glue); offsets (sec_offsets); initial state (create).',
+            'NOT decided: f64->f32 narrowing error, value.end + size <= u32::MAX is an unchecked precondition, task pipeline.'),
+    'C08': ('bigBed zoom: tiling layer over the flushed depth segments with exact covered-base counts and min/max from the actual depth (bb_zoom, bb_sweep via procs), shared zoom encoder/decoder/levels/offsets units as C07.',
+            'NOT decided: as C07.'),
+    'C09': ('well-formed file: every writer unit has `bytes == format spec` postconditions written from the published layout, sharing no code with the readers: data blocks (bw_enc, bb_enc), zoom blocks (zoom_enc), header / zoom directory / summary / data count with frame conditions (hdr, write_pre, zoom_levels), chromosome tree (chrom_tree), R-tree layout (rt_layout), section offsets (sec_offsets), cross-stage consistency of the offsets (mutual), at most items_per_slot items of one chromosome per block (bw_batch, bb_batch, bw_zoom, bb_zoom).',
+            'NOT decided: zlib stream validity and compressed size <= advertised buffer (libdeflater assumed), get_rtreeindex (bounded).'),
+    'C10': ('readers decode any spec-conforming bytes: block decoders proved against arithmetic decode specs with a symbolic byte order (bw_dec types 1-3, bb_dec, zoom_dec), header/zoom directory decode (info), R-tree node/item decoders for both byte orders (rt_readnode; rt_items Kani complete), node filter and search (rt_nodes, rt_search), iterators/glue/caches (iters, query_glue, cache, bw_values).',
+            'NOT decided: multi-level chromosome trees (read_chrom_tree_block), libdeflater inflate.'),
     'C12': ('staging buffer: sequential protocol of the real TempFileBufferWriter/TempFileBuffer methods against a ghost `written` stream; every order of whole operations delivers d0 ++ written (tfb).',
             'ASSUMED, not proved: each method touches shared state through single linearizable swaps, so every interleaving is equivalent to an order of whole operations; condvar wake-ups / deadlock freedom not modelled.'),
-    'C13': ('refusal as an IFF with no state change on Err for bigWig and bigBed process_val (bw_batch, bb_batch); every loop in every unit has a proved termination measure (zoom tiling, zoom-count loops, sweep, parser loops); absence of panics = overflow/index/assert obligations under stated preconditions.',
-            'NOT decided: error propagation through spawned tasks and "never hangs" for the task pipeline (schedules), chromosome-order checks in the data sources, line parser.'),
-    'C15': ('gap filling: FillValues::next enumerates exactly the specified gapless tiling (fill); merge_into pairwise split/sum (Kani, merge_into when enabled).',
-            'NOT decided: ValueIter 50 000-base window accumulator, merge tool glue (clip/adjust/threshold, output names, base 0) - no function boundary within reach; stated in DESIGN §6 C15.'),
-    'C17': ('per-region statistics: size, bases, weighted sum fold, min/max folds, mean0, mean, NaN when uncovered - exact on integers, shape-pinned on floats (stats), relative to the C03 query contract.',
-            'NOT decided: thread-count independence (schedules), name column, values-over-bed fill loop; precondition start <= end of the region is not established by parse_bed (recorded in NOTES).'),
-    'C18': ('FileView window invariant and seek/read semantics == isolated range for all offsets (fview); chunking cuts only at line starts, covers the file once, terminates (chunks).',
-            'NOT decided: indexer bisection (do_index); recovery path of FileView after an I/O error (infinite recursion, documented); BufReader transparency.'),
-    'C19': ('schema parser: every grammar-level loop terminates with measure len - pos, results bounded by input length, no reachable panic (asql_loops), relative to a stated tokenizer contract that was checked exhaustively on short strings outside the proof.',
-            'NOT decided: tokenizer loops themselves (char_indices on &str is outside Verus), generator field count.'),
+    'C13': ('refusal as an IFF with no state change on Err for bigWig and bigBed process_val (bw_batch, bb_batch, procs); source-side order/refusal propagation (feed); every loop in every unit has a proved termination measure (zoom tiling, zoom-count loops, sweep, zoom_sizes: no zero resolution reaches the tiling loop); absence of panics = overflow/index/assert obligations under stated preconditions.',
+            'NOT decided: error propagation through spawned tasks and "never hangs" for the task pipeline (schedules), get_rtreeindex termination (bounded Kani harness only).'),
+    'C15': ('gap filling: FillValues::next enumerates exactly the specified gapless tiling (fill); merge_into pairwise split/sum (Kani complete, merge_into); merge tool clip/adjust/threshold closures (mv_adjust).',
+            'NOT decided: ValueIter 50 000-base window accumulator and output naming - no function boundary within reach; stated in DESIGN §6 C15.'),
+    'C17': ('per-region statistics: size, bases, weighted sum fold, min/max folds, mean0, mean, NaN when uncovered - exact on integers, shape-pinned on floats (stats), relative to the C03 query contract (bw_dec); row text in both the threaded and the single-threaded copy (avg_rows); values-over-bed per-base fill (vob).',
+            'NOT decided: thread-count independence (schedules); precondition start <= end of the region is not established by parse_bed (recorded in NOTES).'),
+    'C18': ('FileView window invariant and seek/read semantics == isolated range for all offsets (fview); chunking cuts only at line starts, covers the file once, terminates (chunks); indexer: every run start in a probed interval is recorded, sorted by position, repeated chromosome reported as not grouped (index).',
+            'NOT decided: recovery path of FileView after an I/O error; BufReader transparency. OPEN FINDING (known_findings.json): an ungrouped file whose interleaving the bisection never probes is indexed as grouped.'),
+    'C19': ('schema parser: every grammar-level loop terminates with measure len - pos, results bounded by input length, no reachable panic (asql_loops); generator declares 3 + extra columns fields (asql_gen); tool stores the supplied text verbatim / generates from the first line (autosql_choice); writer stores the text and derives the field count from it (write_pre).',
+            'NOT decided: tokenizer loops themselves (char_indices on &str is outside Verus; Kani unit asql_tok when enabled is bounded). OPEN FINDING: BED on stdin without --autosql stores the BED3 default.'),
 }
 # properties whose enabled units are judged sufficient to claim (kept explicit: a property is
 # not claimed just because a shared unit happens to serve it)
